@@ -113,6 +113,75 @@ def modeEq (a b : Mode C) : Bool :=
 def vecCs (v : Vec C) : List C := fin3.map v
 def matCs (M : Mat C) : List C := fin3.flatMap fun i => fin3.map fun j => M i j
 
+def vecOfQ (l : List Q) : Vec C := vecC (arrVec l.toArray)
+
+/-- one session on the object model: `n` steps read from the wire; replies of the `read` steps are appended to `acc`. -/
+def runSeq (piC : C) (np : Nat) : Nat → World C → List Q → List Q → Option (List Q)
+  | 0, _, _, acc => some acc
+  | n + 1, w, xs, acc =>
+    match xs with
+    | [] => none
+    | code :: r =>
+      if code = 0 then do
+        let (logs, r) ← takeN (12 * np) r
+        let lgs : List (Fin 6 → C) := (List.range np).map fun q => arr6 (pairs ((logs.drop (12 * q)).take 12)).toArray
+        let et := w.etas.map fun e => fin6.map e
+        let us := (w.disps piC Cx.I lgs).map vecCs
+        let es := (w.strains piC Cx.I).map matCs
+        let ss := (w.stresses piC Cx.I).map matCs
+        let rows := List.zipWith (fun a b => a ++ b) (List.zipWith (fun a b => a ++ b) (List.zipWith (fun a b => a ++ b) et us) es) ss
+        runSeq piC np n w r (acc ++ flatC rows.flatten)
+      else if code = 1 then do
+        let (i, r) ← takeNat r
+        let (x, r) ← takeN 3 r
+        runSeq piC np n (w.edit (.posSet i (vecOfQ x))) r acc
+      else if code = 2 then do
+        let (t, r) ← take1 r
+        runSeq piC np n (w.edit (.posScale (toC t))) r acc
+      else if code = 3 then do
+        let (d, r) ← takeN 3 r
+        runSeq piC np n (w.edit (.posShift (vecOfQ d))) r acc
+      else if code = 4 then do
+        let (j, r) ← takeNat r
+        let (h, r) ← take1 r
+        if hj : j < 3 then runSeq piC np n (w.edit (.posCol ⟨j, hj⟩ (toC h))) r acc else none
+      else if code = 5 then do
+        let (l, r) ← takeN (3 * np) r
+        let ps := (List.range np).map fun q => vecOfQ ((l.drop (3 * q)).take 3)
+        runSeq piC np n (w.edit (.posAll ps)) r acc
+      else if code = 6 then do
+        let (v, r) ← takeN 3 r
+        runSeq piC np n (w.edit (.argB (vecOfQ v))) r acc
+      else if code = 7 then do
+        let (v, r) ← takeN 3 r
+        runSeq piC np n (w.edit (.argM (vecOfQ v))) r acc
+      else if code = 8 then do
+        let (v, r) ← takeN 3 r
+        runSeq piC np n (w.edit (.argN (vecOfQ v))) r acc
+      else if code = 9 then do
+        let (f, r) ← take1 r
+        let Cold := w.args.C
+        let carr : Array C := tabTen4 fun i j k l => toC f * Cold i j k l
+        runSeq piC np n (w.edit (.argC (arrTen4 carr))) r acc
+      else if code = 10 then do
+        let (T, r) ← takeN 9 r
+        let tarr : Array C := (T.map toC).toArray
+        runSeq piC np n (w.edit (.argT (arrMat tarr))) r acc
+      else none
+
+/-- `seq pi <problem> npts [x(3)]* nsteps [step]*` -/
+def handleSeq (xs : List Q) : String := done do
+  let (pi, r) ← take1 xs
+  let (P, r) ← takeProblem r
+  let (np, r) ← takeNat r
+  let (pts, r) ← takeN (3 * np) r
+  let (ns, r) ← takeNat r
+  let ps := (List.range np).map fun q => vecOfQ ((pts.drop (3 * q)).take 3)
+  let one : Array C := #[1, 0, 0, 0, 1, 0, 0, 0, 1]
+  let w : World C := ⟨⟨P.s.C, arrMat one, P.s.m, P.s.n, P.s.b⟩, ps, ⟨P.s, P.μ, P.k⟩⟩
+  let out ← runSeq (toC pi) np ns w r []
+  pure (showRats out)
+
 def handle (toks : List String) : String :=
   match toks with
   | [] => err "op"
@@ -268,6 +337,9 @@ def handle (toks : List String) : String :=
           | some .stroh => pure (showRats [1, if inPl then 1 else 0])
           | some .iso => pure (showRats [2, if inPl then 1 else 0])
           | none => pure (err "value")
+      -- object-level session: `seq pi <problem> npts [x(3)]* nsteps [step]*`, steps: 0 read (+ np.log(eta) of the current
+      -- points) | 1 i x | 2 t | 3 d | 4 j h | 5 all | 6 b | 7 m | 8 n | 9 f (C *= f) | 10 T
+      | "seq" => handleSeq xs
       | _ => err "op"
 
 end C12Drv
